@@ -13,7 +13,7 @@ EXPLANATION = ("Zone-sensitive panic-site discipline over lelwel's own code: the
 
 def run(ctx, rep):
     n = panicrules.evaluate(ctx, rep, ["C12"])
-    rep.floor("PANIC", 35, "audited panic sites")
+    rep.floor("PANIC", 20, "audited panic sites")
     panicrules.span_rule(ctx, rep)
     shape.shape_rule(ctx, rep, panicrules.zones_of)
     panicrules.gate_rule(ctx, rep)
